@@ -34,8 +34,8 @@ CHECKS = {
             {"pkg": "Havoc/pkg/agent", "with": AGENT_WITH, "entries": ["H_c04_dequeue", "H_c04_history", "H_c04_chunks"], "split": True},
             {"pkg": "Havoc/pkg/agent", "with": AGENT_WITH, "entries": ["H_c04_race"], "race": True},
         ],
-        "bounds": "dequeue: queue of 0..4 jobs with 0..2 arguments each, byte arguments of any length up to 2^31 (abstract buffers); history: 1..5 enqueue/check-in operations on two agents; chunks: file size any value in [0, 3*30MB+1].",
-        "outside": "concurrent enqueue/check-in (two-thread harness not built in this revision); service Get path",
+        "bounds": "dequeue: queue of 0..4 jobs with 0..2 arguments each, byte arguments of any length up to 2^31 (abstract buffers); history: 1..5 enqueue/check-in operations on two agents; chunks: file size any value in [0, 3*30MB+1]; race: two threads, preemption at every shared load/store and mutex operation, at most 2 voluntary switches.",
+        "outside": "more than two threads or two voluntary context switches; service Get path",
         "min_completed": 3,
     },
     "C07": {
@@ -206,33 +206,16 @@ CHECKS = {
 LEVELS = {
     "C01": {"text": "Bounded symbolic model checking of the implementation: every feasible path of TaskDispatch / the request handlers for all byte values within the stated length bounds is executed over SMT terms; every Go run-time check is an obligation decided by z3. Holds = no feasible panic, unbounded loop or leaked lock within the bounds; says nothing beyond them.",
             "note": "Trusted: go/ssa, gosx, z3, stub contracts (AES-CTR as identity involution, os/net effect recorders, opaque formatting). Bounds in evidence."},
-    "C05": {
-        "groups": [
-            {"pkg": "Havoc/pkg/agent", "with": AGENT_WITH, "entries": ["H_c05_gate"], "shards": 16},
-            {"pkg": "Havoc/pkg/agent", "with": AGENT_WITH, "entries": ["H_c05_completed", "H_c05_final", "H_c05_cross"]},
-        ],
-        "bounds": "gate: every command id + one arbitrary other id, body 0..8 bytes, 0..2 outstanding ids on the receiver, the callback id outstanding on another agent; RequestCompleted: 0..4 outstanding ids (duplicates allowed); final: 11 single-package commands, body 0..12 bytes.",
-        "outside": "bodies beyond the bound; which callbacks are 'final' for multi-package commands",
-        "min_completed": 5,
-    },
-    "C04": {
-        "groups": [
-            {"pkg": "Havoc/pkg/agent", "with": AGENT_WITH, "entries": ["H_c04_dequeue", "H_c04_history", "H_c04_chunks"], "split": True},
-        ],
-        "bounds": "dequeue: queue of 0..4 jobs with 0..2 arguments each, byte arguments of any length up to 2^31 (abstract buffers); history: 1..5 enqueue/check-in operations on two agents; chunks: file size any value in [0, 3*30MB+1].",
-        "outside": "concurrent enqueue/check-in (two-thread harness not built in this revision); service Get path",
-        "min_completed": 3,
-    },
     "C05": {"text": "Bounded symbolic execution of the real TaskDispatch gate for every command id with symbolic request ids and bodies against an effect recorder; the negative statement (nothing happens for a non-outstanding id) is decided by the solver for all ids and bodies in the bound.",
             "note": "Trusted: go/ssa, gosx, z3; recorder TeamServer, os/net effect stubs; single-package command table transcribed from Command.c."},
     "C07": {"text": "Bounded symbolic execution of DownloadAdd/Write/Close and the logr writers with the real path/filepath.Clean and strings code over symbolic path components; every os call is recorded and the containment oracle re-cleans the recorded path; counterexamples are replayed on a real temp loot tree.",
             "note": "os.* = effect recorder with the documented contracts; loot root fixed; names beyond the bound outside."},
-    "C16": {"text": "Bounded symbolic execution of service.ClientClose from every small ownership configuration; position of the closing connection and ownership vectors are decided exhaustively through the engine.",
-            "note": "Only the third-party service registry is covered in this revision."},
+    "C16": {"text": "Bounded symbolic execution of service.ClientClose from every small ownership configuration; position of the closing connection and ownership vectors are decided exhaustively through the engine; and of the real ListenerStart/ListenerRemove over sequences of 1..3 add/remove steps with the invariant running = persisted = advertised, unique names, no endpoint outliving its listener.",
+            "note": "Third-party service registry (ClientClose) and the built-in listener registry for SMB and External listeners (ListenerStart/ListenerRemove with the DB and the advertised set as models); HTTP listeners (real sockets) and ListenerEdit are outside."},
     "C12": {"text": "Bounded symbolic execution of the real (*HTTP).request with real net/http header canonicalisation and strings code over symbolic header/URI/user-agent values; the protocol layer is a recorder, so 'reached' is observed exactly.",
             "note": "gin.Context is built directly (no router); parseAgentRequest stubbed as recorder inside gosx."},
     "C15": {"text": "Bounded symbolic execution of the real SOCKS negotiation/request parsing (with the real bufio.Reader), the proxy connection handler and the COMMAND_SOCKET callbacks against a reference RFC 1928 parser; the client's byte stream and its TCP segmentation are symbolic.",
-            "note": "net.Conn is a scripted in-memory connection (same code natively); goroutines are recorded, not run."},
+            "note": "net.Conn is a scripted in-memory connection (same code natively); the reader goroutine of a client is run to completion after the handler (not interleaved); table operations of two threads run under the bounded scheduler."},
     "C13": {"text": "Bounded symbolic execution of the real Builder.PatchConfig and ParseWorkingHours against a reference reader transcribed from Demon.c DemonConfig(); every enumerated option and symbolic digits/integers; a crossed assignment of one option shows as a field mismatch.",
             "note": "UTF-16 encoder and regexp are stubs stated in the harness; no native replay (the stubs stand for x/text and regexp)."},
     "C10": {"text": "Bounded symbolic execution of the real pkg/db code (AgentAdd/AgentUpdate/AgentAll, LinkAdd/LinkRemove/LinksOf/ParentOf/LinkExist, ListenerAdd/Remove/All/Exist/Count, and init()'s CREATE TABLE statements) over operation sequences and symbolic ids/text, with database/sql replaced by a relational model that executes the SQL text the code really sends under SQLite's affinity and UNIQUE rules; a restart is a new handle on the same tables; counterexamples and witnesses are replayed on real SQLite.",
@@ -252,7 +235,7 @@ LEVELS = {
     "C08": {"text": "Bounded symbolic execution of the real PivotAddJob/BuildPayloadMessage wrapping for chains of 1..3 hops, unwrapped by a reference implementation of the Demon's pipe framing with each hop's own key; AES-CTR is an uninterpreted key stream so a layer encrypted under the wrong key cannot decode.",
             "note": "Trusted: go/ssa, gosx, z3 (QF_UFBV), the reference decoder transcribed from Command.c/TransportSmb.c."},
     "C04": {"text": "Bounded symbolic execution of GetQueuedJobs/AddJobToQueue/UploadMemFileInChunks against a FIFO reference; sizes are symbolic so the 30 MB boundary and chunk boundaries are decided by the solver, not sampled.",
-            "note": "Sequential histories only; the concurrent part of the property is not covered in this revision."},
+            "note": "Sequential histories, plus two concurrent threads (enqueue against check-in, enqueue against enqueue) under the bounded scheduler with at most two voluntary context switches; the lost update on the unlocked queue is a known finding (known_findings.json), confirmed natively by the race detector."},
     "C18": {"text": "Partial: bounded symbolic execution of the real scanner, parser and evaluator (hclsyntax expression*.go with the cty operator and conversion functions) on expression and template sources whose operator, selector and literal bytes are symbolic; the value (or the presence of an error diagnostic) is compared with reference semantics transcribed from the language specification; the solver decides the comparison for every byte value in the bound.",
             "note": "Shapes are fixed (two binary operators over three operands; one selector; seven template forms); operands are concrete small numbers/booleans because cty numbers are big.Float; see bounds for what is outside."},
     "C19": {"text": "Partial: bounded symbolic execution of the real native parser, JSON parser, body merging, dynamic-block expansion and the hcldec decoder on five spellings of one configuration whose string contents are symbolic; equality of the decoded values and of validity across the spellings is asserted and decided by the solver for every content in the bound.",
